@@ -91,8 +91,13 @@ Definition channel0 : channel :=
   {| ch_status := ChNew; ch_flow := true; ch_dtag := 0; ch_ctag := 0; ch_confirm := false; ch_ticker := false;
      ch_cur := None; ch_consumers := []; ch_qos := qos0; ch_cqos := qos0; ch_unacked := []; ch_confirmq := []; ch_inst := 0 |}.
 
-Record conn := { cn_chans : list (N * channel); cn_qos : qosw }.
-#[export] Instance eta_conn : Settable _ := settable! Build_conn <cn_chans; cn_qos>.
+(* handshake stage of a connection (connection.go: status): start sent; tune sent (start-ok accepted); tune-ok accepted;
+   open-ok sent *)
+Inductive cstage := StStart | StTune | StTuneOk | StOpen.
+Definition cstage_eqb (a b : cstage) : bool :=
+  match a, b with StStart, StStart | StTune, StTune | StTuneOk, StTuneOk | StOpen, StOpen => true | _, _ => false end.
+Record conn := { cn_chans : list (N * channel); cn_qos : qosw; cn_stage : cstage }.
+#[export] Instance eta_conn : Settable _ := settable! Build_conn <cn_chans; cn_qos; cn_stage>.
 
 Record msg := { m_mid : N; m_ex : string; m_key : string; m_mand : bool; m_pers : bool; m_has_header : bool;
                 m_hsize : N; m_size : N; m_body : list N; m_dc : N;
@@ -140,6 +145,7 @@ Inductive sframe :=
 | SBody (uid : N) (len : N)
 | SAck (dtag : N) (multiple : bool)
 | SConfirmSelectOk
+| SConnStart | SConnTune | SConnOpenOk
 | SConnGone.      (* pseudo-frame: the broker closed the socket and forgot the connection *)
 
 Definition event := (N * N * sframe)%type.
@@ -165,7 +171,11 @@ Inductive meth :=
 | MRecover (requeue : bool)
 | MConfirmSelect (nowait : bool)
 | MTxSelect
-| MConnClose | MConnCloseOk.
+| MConnClose | MConnCloseOk
+(* the handshake, with the outcome of the checks the model does not compute abstracted into a bit: start-ok (PLAIN,
+   a well-formed response, a configured user's correct password), tune-ok (limits within the server's), open (an
+   existing virtual host) *)
+| MStartOk (good : bool) | MTuneOk (within : bool) | MConnOpen (vhost_ok : bool).
 
 Inductive label :=
 | LConnect (c : N)
@@ -178,13 +188,14 @@ Inductive label :=
 | LPersistTick
 | LRelay
 | LConfirmTick (c h : N)
-| LSocketLoss (c : N).
+| LSocketLoss (c : N)
+| LAccept (c : N).   (* a socket is accepted and the protocol header read: connection.start goes out *)
 
 (* reply codes (amqp/constants_generated.go) and class/method ids *)
 Definition NoRoute := 312. Definition AccessRefused := 403. Definition NotFound := 404.
 Definition ResourceLocked := 405. Definition PreconditionFailed := 406.
 Definition FrameError := 501. Definition CommandInvalid := 503. Definition ChannelErr := 504.
-Definition NotAllowed := 530. Definition NotImplemented := 540.
+Definition NotAllowed := 530. Definition NotImplemented := 540. Definition InvalidPath := 402.
 
 (* an error raised by a handler: scope, code, class, method *)
 Inductive aerr := ChanErr (code cls mth : N) | ConnErr (code cls mth : N).
@@ -201,6 +212,13 @@ Definition set_chan (s : state) (c h : N) (ch : channel) : state :=
   end.
 Definition upd_chan (s : state) (c h : N) (f : channel -> channel) : state :=
   match get_chan s c h with Some ch => set_chan s c h (f ch) | None => s end.
+Definition set_stage (s : state) (c : N) (st : cstage) : state :=
+  match get_conn s c with
+  | Some cn => s <| conns := aset N.eqb c (cn <| cn_stage := st |>) (conns s) |>
+  | None => s
+  end.
+Definition conn_opened (s : state) (c : N) : bool :=
+  match get_conn s c with Some cn => cstage_eqb (cn_stage cn) StOpen | None => false end.
 Definition get_queue (s : state) (q : string) : option queue := alookup seqb q (queues s).
 Definition set_queue (s : state) (q : string) (qu : queue) : state := s <| queues := aset seqb q qu (queues s) |>.
 Definition upd_queue (s : state) (q : string) (f : queue -> queue) : state :=
@@ -783,6 +801,7 @@ Definition meth_ids (m : meth) : N * N :=
   | MGet _ _ => (60, 70) | MAck _ _ => (60, 80) | MNack _ _ _ => (60, 120) | MReject _ _ => (60, 90) | MRecover _ => (60, 110)
   | MConfirmSelect _ => (85, 10) | MTxSelect => (90, 10)
   | MConnClose => (10, 50) | MConnCloseOk => (10, 51)
+  | MStartOk _ => (10, 11) | MTuneOk _ => (10, 31) | MConnOpen _ => (10, 40)
   end.
 Definition is_conn_class (m : meth) : bool := fst (meth_ids m) =? 10.
 Definition is_chan_close (m : meth) : bool := match m with MChannelClose | MChannelCloseOk => true | _ => false end.
@@ -1031,6 +1050,13 @@ Definition handle_method (cfg : config) (fx : fixes) (s : state) (c h : N) (m : 
   (* connectionMethods.go *)
   | MConnClose => ok s (out1 c h SConnCloseOk)
   | MConnCloseOk => ok s []
+  (* the handshake steps (their order is checked by the caller, checkMethodAllowed) *)
+  | MStartOk good =>
+    if good then ok (set_stage s c StTune) (out1 c h SConnTune) else refuse s (ConnErr NotAllowed 10 11)
+  | MTuneOk within =>
+    if within then ok (set_stage s c StTuneOk) [] else refuse s (ConnErr NotAllowed 10 31)
+  | MConnOpen vhost_ok =>
+    if vhost_ok then ok (set_stage s c StOpen) (out1 c h SConnOpenOk) else refuse s (ConnErr InvalidPath 10 40)
   end
   end.
 
@@ -1076,6 +1102,25 @@ Definition apply_err (s : state) (c h : N) (r : state * list event * option aerr
   | Some e => let '(s, evs') := send_error s c h e in (s, evs ++ evs')
   end.
 
+(* channel.sendError on a connection that has not completed the handshake: the close frame goes out and the
+   connection is dropped with it (no close-ok is awaited) *)
+Definition apply_err_st (cfg : config) (fx : fixes) (opened : bool) (s : state) (c h : N) (r : state * list event * option aerr)
+  : state * list event :=
+  if opened then apply_err s c h r else
+  match snd r with
+  | Some (ConnErr _ _ _) => let '(s1, e1) := apply_err s c h r in let '(s2, e2) := conn_close cfg fx s1 c in (s2, e1 ++ e2)
+  | _ => apply_err s c h r
+  end.
+
+(* checkMethodAllowed: the handshake methods are accepted in order only *)
+Definition stage_allows (st : cstage) (m : meth) : bool :=
+  match m with
+  | MStartOk _ => cstage_eqb st StStart
+  | MTuneOk _ => cstage_eqb st StTune
+  | MConnOpen _ => cstage_eqb st StTuneOk
+  | _ => true
+  end.
+
 (* the channel was opened and not closed since (or the broker is closing it) *)
 Definition chan_usable (s : state) (c h : N) : bool :=
   match get_chan s c h with
@@ -1088,12 +1133,22 @@ Definition step (cfg : config) (fx : fixes) (s : state) (l : label) : state * li
   | LConnect c =>
     match get_conn s c with
     | Some _ => (s, [])
-    | None => (s <| conns := aset N.eqb c {| cn_chans := [(0, channel0 <| ch_status := ChNew |>)]; cn_qos := qos0 |} (conns s) |>, [])
+    | None => (s <| conns := aset N.eqb c {| cn_chans := [(0, channel0 <| ch_status := ChNew |>)]; cn_qos := qos0; cn_stage := StOpen |} (conns s) |>, [])
+    end
+  | LAccept c =>
+    match get_conn s c with
+    | Some _ => (s, [])
+    | None => (s <| conns := aset N.eqb c {| cn_chans := [(0, channel0 <| ch_status := ChNew |>)]; cn_qos := qos0; cn_stage := StStart |} (conns s) |>,
+               out1 c 0 SConnStart)
     end
   | LMethod c h m =>
     match get_conn s c with
     | None => (s, [])
-    | Some _ =>
+    | Some cn0 =>
+      let opened := cstage_eqb (cn_stage cn0) StOpen in
+      (* connection.handleIncoming: a frame on a non-zero channel of a connection that has not completed the handshake
+         ends the connection without a word *)
+      if negb opened && negb (h =? 0) then conn_close cfg fx s c else
       let s := ensure_chan s c h in
       match m with
       | MConnCloseOk => if fx_stage fx && negb (h =? 0) then apply_err s c h (refuse s (ConnErr CommandInvalid 10 51)) else conn_close cfg fx s c
@@ -1104,28 +1159,32 @@ Definition step (cfg : config) (fx : fixes) (s : state) (l : label) : state * li
         let closing := match get_chan s c h with Some ch => match ch_status ch with ChClosing => true | _ => false end | None => false end in
         if fx_discard_closing fx && closing && negb (is_chan_close m) then (s, [])
         else if fx_stage fx && negb (Bool.eqb (is_conn_class m) (h =? 0))
-             then apply_err s c h (refuse s (ConnErr CommandInvalid (fst (meth_ids m)) (snd (meth_ids m))))
-             else if fx_chan_open fx && negb (chan_usable s c h) && negb (match m with MChannelOpen => true | _ => false end)
-                  then apply_err s c h (refuse s (ConnErr ChannelErr (fst (meth_ids m)) (snd (meth_ids m))))
-                  else apply_err s c h (handle_method cfg fx s c h m)
+             then apply_err_st cfg fx opened s c h (refuse s (ConnErr CommandInvalid (fst (meth_ids m)) (snd (meth_ids m))))
+             else if fx_stage fx && negb (stage_allows (cn_stage cn0) m)
+                  then apply_err_st cfg fx opened s c h (refuse s (ConnErr CommandInvalid (fst (meth_ids m)) (snd (meth_ids m))))
+                  else if fx_chan_open fx && negb (is_conn_class m) && negb (chan_usable s c h) && negb (match m with MChannelOpen => true | _ => false end)
+                       then apply_err s c h (refuse s (ConnErr ChannelErr (fst (meth_ids m)) (snd (meth_ids m))))
+                       else apply_err_st cfg fx opened s c h (handle_method cfg fx s c h m)
       end
     end
   | LHeader c h mid size pers =>
     match get_conn s c with
     | None => (s, [])
-    | Some _ =>
+    | Some cn0 =>
+      let opened := cstage_eqb (cn_stage cn0) StOpen in
+      if negb opened && negb (h =? 0) then conn_close cfg fx s c else
       let s := ensure_chan s c h in
       match get_chan s c h with
       | None => (s, [])
       | Some ch =>
         if fx_discard_closing fx && (match ch_status ch with ChClosing => true | _ => false end) then (s, []) else
         match ch_cur ch with
-        | None => apply_err s c h (refuse s (ConnErr FrameError 0 0))
+        | None => apply_err_st cfg fx opened s c h (refuse s (ConnErr FrameError 0 0))
         | Some u =>
           match get_msg s u with
           | None => (s, [])
           | Some m =>
-            if m_has_header m then apply_err s c h (refuse s (ConnErr FrameError 0 0))
+            if m_has_header m then apply_err_st cfg fx opened s c h (refuse s (ConnErr FrameError 0 0))
             else
               let s := upd_msg s u (fun m => m <| m_has_header := true |> <| m_hsize := size |> <| m_pers := pers |> <| m_mid := mid |>) in
               if fx_empty_body fx && (size =? 0) then finish_publish fx s c h u else (s, [])
@@ -1136,22 +1195,24 @@ Definition step (cfg : config) (fx : fixes) (s : state) (l : label) : state * li
   | LBody c h len =>
     match get_conn s c with
     | None => (s, [])
-    | Some _ =>
+    | Some cn0 =>
+      let opened := cstage_eqb (cn_stage cn0) StOpen in
+      if negb opened && negb (h =? 0) then conn_close cfg fx s c else
       let s := ensure_chan s c h in
       match get_chan s c h with
       | None => (s, [])
       | Some ch =>
         if fx_discard_closing fx && (match ch_status ch with ChClosing => true | _ => false end) then (s, []) else
         match ch_cur ch with
-        | None => apply_err s c h (refuse s (ConnErr FrameError 0 0))
+        | None => apply_err_st cfg fx opened s c h (refuse s (ConnErr FrameError 0 0))
         | Some u =>
           match get_msg s u with
           | None => (s, [])
           | Some m =>
-            if negb (m_has_header m) then apply_err s c h (refuse s (ConnErr FrameError 0 0))
+            if negb (m_has_header m) then apply_err_st cfg fx opened s c h (refuse s (ConnErr FrameError 0 0))
             else if m_hsize m <? m_size m + len then
               (* more content than announced (F55 repaired): the message is dropped *)
-              apply_err s c h (refuse (upd_chan s c h (fun ch => ch <| ch_cur := None |>)) (ConnErr FrameError 0 0))
+              apply_err_st cfg fx opened s c h (refuse (upd_chan s c h (fun ch => ch <| ch_cur := None |>)) (ConnErr FrameError 0 0))
             else
               let s := upd_msg s u (fun m => m <| m_body ::= fun b => b ++ [len] |> <| m_size ::= fun z => z + len |>) in
               if (m_size m + len) <? m_hsize m then (s, []) else finish_publish fx s c h u
